@@ -244,15 +244,15 @@ pub fn scenarios(tier: Tier) -> Vec<Scenario> {
             for post in 0..=2 {
                 for manual in [false, true] {
                     for d in [false, true] {
-                        add(vec![c(pre, post, 0, manual, d)], if pre + post <= 1 { 4 } else { 3 });
+                        add(vec![c(pre, post, 0, manual, d)], if pre + post <= 1 { 5 } else { 4 });
                     }
                 }
             }
         }
         for (a, b) in [((1, 0), (0, 1)), ((0, 1), (1, 1)), ((2, 0), (0, 2)), ((1, 1), (1, 1))] {
             for m in [false, true] {
-                add(vec![c(a.0, a.1, 0, m, false), c(b.0, b.1, 1, !m, false)], 2);
-                add(vec![c(a.0, a.1, 0, m, true), c(b.0, b.1, 0, m, false)], 2);
+                add(vec![c(a.0, a.1, 0, m, false), c(b.0, b.1, 1, !m, false)], 3);
+                add(vec![c(a.0, a.1, 0, m, true), c(b.0, b.1, 0, m, false)], 3);
             }
         }
     }
